@@ -100,8 +100,10 @@ class RecordingShuffle:
         self.calls.append((start, end, n, random_state))
         if self.table is not None and tuple(self.table.shape) == (X.shape[0], n, X.shape[1], X.shape[2]):
             return self.table.clone()
-        # default: example b, shuffle j = X[b] rolled by j+1 positions (deterministic, distinct per j)
-        return torch.stack([torch.stack([torch.roll(X[b], j + 1, dims=-1) for j in range(n)]) for b in range(X.shape[0])])
+        # default: example b, shuffle j = X[b] rolled by j+1 (+ the integer seed) positions: deterministic,
+        # distinct per j, and a different seed is observable
+        s = int(random_state) if isinstance(random_state, int) or (hasattr(random_state, 'item') and getattr(random_state, 'ndim', 1) == 0) else 0
+        return torch.stack([torch.stack([torch.roll(X[b], j + 1 + s, dims=-1) for j in range(n)]) for b in range(X.shape[0])])
 
     def to_json(self):
         return {'__factory__': 'recording_shuffle', 'table': None if self.table is None else self.table.tolist()}
